@@ -190,6 +190,7 @@ void sync_log(const char *op, int obj);
 int simk_nthreads(void) { return nth; }
 /* can thread t get to a signal-delivery point (it runs or sits in a wait)? */
 int simk_thread_takes_signals(int t) { return t >= 0 && t < nth && (T[t].st == ST_RUN || T[t].st == ST_WAIT); }
+int simk_thread_alive(int t) { return t >= 0 && t < nth && T[t].st != ST_DONE; }
 int simk_wait_count(void) { return nwaits; }
 void simk_set_schedule(const int *s, int n) { schedv = s; schedn = n; schedi = 0; }
 void simk_set_sticky(int n) { sticky = n; }
@@ -549,6 +550,7 @@ static void exitkey_d(void *v)
 	}
 	__real_pthread_mutex_lock(&M);
 	T[me].st = ST_DONE;
+	simk_sig_thread_exit(me);
 	sync_log("exit", me);
 	simk_progress();
 	/* hand the baton on without waiting for it back */
